@@ -83,44 +83,43 @@ func checkC08(c *Ctx, r *Report) {
 
 	// unknown version => error: default arm of the version switch returns a failure
 	if fi := need(c, r, "C08.a", gm); fi != nil {
-		sw := w.switches(fi, func(tag ast.Expr) bool {
-			se, ok := tag.(*ast.SelectorExpr)
-			return ok && qualField(fi.Pkg.TypesInfo, se) == "definitions.OpenAPIGeneratorConfig.OpenAPI"
-		})
+		// whatever the form of the dispatch: every return that is not a failure happens where
+		// config.OpenAPI is known to equal one of the supported versions; everywhere else
+		// (the default arm, the fall-through after the if-chain) the function fails
 		viol := ""
 		var sites []string
-		if len(sw) != 1 {
-			viol = fmt.Sprintf("expected one switch on config.OpenAPI in %s, found %d", gm, len(sw))
-		} else {
-			sites = append(sites, w.pos(sw[0].Pos))
-			if !sw[0].HasDefault {
-				viol = "version switch has no default arm: an unknown version would fall through"
+		nVersioned := 0
+		for _, ex := range exitsOf(fi.SSA) {
+			if ex.Ret == nil || ex.Kind == exitFailure {
+				if ex.Ret != nil {
+					sites = append(sites, w.pos(retPos(ex)))
+				}
+				continue
 			}
-			// every exit that is not preceded by a version arm must be a failure: the function
-			// must not have a success exit outside the switch
-			for _, ex := range exitsOf(fi.SSA) {
-				if ex.Kind == exitSuccess && ex.Ret != nil {
-					p := ex.Ret.Pos()
-					if !(p >= sw[0].Stmt.Pos() && p <= sw[0].Stmt.End()) {
-						viol = fmt.Sprintf("%s: success return outside the version switch", w.pos(p))
-					}
+			blk := ex.Block
+			if ex.Pred != nil {
+				blk = ex.Pred
+			}
+			known := false
+			for _, f := range dominatingFacts(blk) {
+				cnd, pol := unwrapNot(f.Cond, f.Pol)
+				bo, ok := cnd.(*ssa.BinOp)
+				if !ok {
+					continue
+				}
+				if a := sliceOf(cnd); a.hasFieldNamed("OpenAPI") && len(a.Consts) > 0 && ((bo.Op == token.EQL && pol) || (bo.Op == token.NEQ && !pol)) {
+					known = true
 				}
 			}
-			for _, cc := range sw[0].Stmt.Body.List {
-				cl := cc.(*ast.CaseClause)
-				if cl.List == nil {
-					ok := false
-					for _, st := range cl.Body {
-						if ret, isRet := st.(*ast.ReturnStmt); isRet && returnsNonNilError(fi, ret) {
-							ok = true
-							sites = append(sites, w.pos(ret.Pos()))
-						}
-					}
-					if !ok {
-						viol = fmt.Sprintf("%s: default arm of the version switch does not return an error", w.pos(cl.Pos()))
-					}
-				}
+			sites = append(sites, w.pos(retPos(ex)))
+			if known {
+				nVersioned++
+			} else {
+				viol = fmt.Sprintf("%s: a return that is not a failure is reachable without config.OpenAPI having matched a supported version: an unknown version would yield bytes (or silently nothing)", w.pos(retPos(ex)))
 			}
+		}
+		if nVersioned == 0 && viol == "" {
+			viol = "no version-specific return found in " + gm
 		}
 		r.add("C08.a", "mustcall", gm+":unknown-version-is-error", "manager: unknown OpenAPI version yields an error, never bytes", []string{gm}, sites, viol)
 	}
